@@ -9,6 +9,7 @@ import (
 	"regexp"
 	"strings"
 	"sync"
+	"time"
 
 	"google.golang.org/protobuf/proto"
 	"google.golang.org/protobuf/types/descriptorpb"
@@ -77,6 +78,14 @@ func BuildTool(name, pkg string) (string, error) {
 		return "", err
 	}
 	os.MkdirAll(buildDir, 0o755)
+	// binaries of processes that died before RemoveTools
+	if old, _ := filepath.Glob(filepath.Join(buildDir, name+"-"+repoTag()+"-*")); len(old) > 0 {
+		for _, o := range old {
+			if st, err := os.Stat(o); err == nil && time.Since(st.ModTime()) > 3*time.Hour {
+				os.Remove(o)
+			}
+		}
+	}
 	out := filepath.Join(buildDir, fmt.Sprintf("%s-%s-%d", name, repoTag(), os.Getpid()))
 	args := append([]string{"build"}, mf...)
 	args = append(args, "-o", out, pkg)
